@@ -15,5 +15,63 @@ pub(crate) fn decode<'de, T>(bytes: &'de [u8]) -> Result<T, Error>
 where
     T: Deserialize<'de>,
 {
+    validate(bytes)?;
     serde_bencode::from_bytes(bytes)
+}
+
+/// Deepest nesting of lists/dictionaries accepted. KRPC messages nest at most 4 levels.
+const MAX_DEPTH: usize = 32;
+
+/// Walks the first bencoded value in `bytes` and rejects it if a string declares more bytes than
+/// remain in the input or if it nests too deeply. The decoder allocates the declared length of
+/// every string up front and recurses once per nesting level, so neither can be left to it (the
+/// input comes straight from the network). Anything else that is malformed is left for the
+/// decoder to report.
+fn validate(bytes: &[u8]) -> Result<(), Error> {
+    let mut pos = 0;
+    let mut depth = 0usize;
+
+    loop {
+        let Some(&byte) = bytes.get(pos) else {
+            return Ok(());
+        };
+        pos += 1;
+
+        match byte {
+            b'i' => match bytes[pos..].iter().position(|b| *b == b'e') {
+                Some(len) => pos += len + 1,
+                None => return Ok(()),
+            },
+            b'0'..=b'9' => {
+                let Some(digits) = bytes[pos..].iter().position(|b| *b == b':') else {
+                    return Ok(());
+                };
+                let len = std::str::from_utf8(&bytes[pos - 1..pos + digits])
+                    .ok()
+                    .and_then(|len| len.parse::<usize>().ok());
+                let Some(len) = len else {
+                    return Ok(());
+                };
+                pos += digits + 1;
+
+                if len > bytes.len() - pos {
+                    return Err(Error::EndOfStream);
+                }
+                pos += len;
+            }
+            b'l' | b'd' => {
+                depth += 1;
+                if depth > MAX_DEPTH {
+                    return Err(Error::InvalidValue("nested too deeply".to_owned()));
+                }
+                continue;
+            }
+            b'e' if depth > 0 => depth -= 1,
+            _ => return Ok(()),
+        }
+
+        if depth == 0 {
+            return Ok(());
+        }
+    }
 }
